@@ -1236,7 +1236,7 @@ def itemstash_rules(fb, R):
                     offv = ov['d']
                     oi = U.scn(fn, U.local_init(fn, offv))
                     ok = oi is not None and oi.get('k') == 'call' and oi.get('args') and fn.params \
-                        and fn.params[0]['d'] in U.vars_in(fn, oi['args'][0]) \
+                        and any(a_ is not None and fn.params[0]['d'] in U.vars_in(fn, a_) for a_ in oi['args']) \
                         and (oi.get('rcls') == ITEMSTASH or (oi.get('op') == '[]' and oi.get('recv') is not None and fn.is_this_member(oi['recv'], idx_f)))
         R.check(ok, r1, key + '#marks-the-handles-item-removed', fn.site,
                 'remove_item must call set_removed(true) on the buffer item found at the offset stored for its handle, on every path')
